@@ -79,10 +79,29 @@ def entryAfter (pre : List TSeg) (d : SegDesc) : Nat × Nat :=
   | some _ => (w.1, w.1 + 4)
   | none => (w.2.1, w.1)
 
+/-- announced length of the visible record that contains that segment -/
+def entryVrLen (pre : List TSeg) (d : SegDesc) : Nat :=
+  match d.vr with
+  | some L => L
+  | none => (walkEnd 80 0 0 pre).2.2
+
 /-- index position of the record written after the records `rpre` (laid out by `lpre`) whose first segment has
 descriptor `d` -/
 def recEntry (rpre : List LR) (lpre : List (List SegDesc)) (d : SegDesc) : Nat × Nat :=
   entryAfter (cutAll rpre lpre) d
+
+/-- end of the visible record that holds the last segment of the record starting the list; `e` = end of the visible
+record in hand, `p` = position of the current segment header -/
+def recEnd : Nat → Nat → List TSeg → Nat
+  | e, _, [] => e
+  | e, p, s :: ss =>
+    if s.last then e
+    else match ss with
+      | [] => e
+      | s' :: _ =>
+        match s'.d.vr with
+        | some L => recEnd (p + s.d.segLen + L) (p + s.d.segLen + 4) ss
+        | none => recEnd e (p + s.d.segLen) ss
 
 /-- the slice `get_file_logical_data(…, offset, length)` must return: `payload[offset:offset+length]`, everything from
 `offset` when `length < 0` -/
